@@ -115,6 +115,14 @@ def _goal(draw, preds, bound, names, need, depth, opts):
             args, new = _call_args(draw, p[1], bound, names, simple, opts.get("shared", False), need)
             goals.append(["call", p[0], args])
             bound += [v for v in new if v not in bound]
+            vs = [t[1] for t in args if t[0] == "v"]
+            if opts.get("shared", False) and len(vs) != len(set(vs)) and draw(st.booleans()):
+                # the same predicate called again with distinct fresh variables (a more general call after a call
+                # that shares a variable between arguments: the two must not share a table entry)
+                free = [v for v in need if v not in bound]
+                more = [free.pop(0) if free else names.new() for _ in range(p[1])]  # head variables first
+                goals.append(["call", p[0], [["v", v] for v in more]])
+                bound += more
         elif kind == "neg":
             p = draw(st.sampled_from(preds))
             goals.append(["not", ["call", p[0], _bound_args(draw, p[1], bound, simple)]])
@@ -217,7 +225,7 @@ def nonrec_cases(draw, simple=None, allow_shared=None, nonground_facts=None):
     npred = draw(st.integers(1, 4))
     use_mem = (not simple) and draw(st.integers(0, 3)) == 0
     if allow_shared is None:
-        allow_shared = draw(st.integers(0, 19)) == 0
+        allow_shared = draw(st.integers(0, 3)) == 0
     if nonground_facts is None:
         # facts with variables give non-ground answers and non-ground findall solutions, whose variable sharing is
         # outside the statement; off unless asked for
@@ -234,6 +242,13 @@ def nonrec_cases(draw, simple=None, allow_shared=None, nonground_facts=None):
         name = "p%d" % i
         ncl = draw(st.integers(1, 5 if i == 0 else 4))
         lower = list(preds)
+        if allow_shared and i == 0:
+            # a binary relation with a diagonal and an off-diagonal fact: p0(X,X) and p0(X,Y) have different answers
+            arity = 2
+            g1 = _ground(draw, simple)
+            g2 = _ground(draw, simple)
+            prog.append(["cl", [name, [g1, g1]], None])
+            prog.append(["cl", [name, [g1, g2]], None])
         for ci in range(ncl):
             names = _Names()
             hargs, hv = _head(draw, arity, names, simple, None)
@@ -294,6 +309,13 @@ def nonrec_cases(draw, simple=None, allow_shared=None, nonground_facts=None):
         names = _Names("Q")
         args, _n = _query_args(draw, p[1], names, simple)
         base.append([p[0], args])
+    if allow_shared and preds[0][1] == 2:
+        # one clause that calls the binary relation p0 with a shared variable and with distinct variables, in either
+        # order (the restricted and the general call must not share a table entry)
+        c1 = ["call", "p0", [["v", "S3"], ["v", "S3"]]]
+        c2 = ["call", "p0", [["v", "S1"], ["v", "S2"]]]
+        prog.append(["cl", ["ps", [["v", "S1"], ["v", "S2"]]], ["and", [c1, c2] if draw(st.integers(0, 2)) else [c2, c1]]])
+        base.append(["ps", [["v", "Q1"], ["v", "Q2"]]])
     order = draw(st.lists(st.integers(0, len(base) - 1), min_size=len(base), max_size=len(base) + 3))
     queries = [base[i] for i in order]
     for b in base:
